@@ -234,6 +234,17 @@ pub struct Prov {
     spare_ready: u8,
     /// real time the provider takes to answer (a key store across the network), in milliseconds
     pub answer_sleep_ms: u64,
+    /// what tower's own services (Buffer, ConcurrencyLimit, FutureService) do when `call` comes without readiness: panic
+    pub contract_panics: bool,
+}
+
+thread_local! {
+    static CONTRACT_PANICS: std::cell::Cell<bool> = const { std::cell::Cell::new(false) };
+}
+
+/// Providers created on this thread from now on panic (instead of answering with an error) when called without readiness.
+pub fn set_provider_contract_panics(on: bool) {
+    CONTRACT_PANICS.with(|c| c.set(on));
 }
 
 impl Prov {
@@ -246,6 +257,7 @@ impl Prov {
             ready_ok: false,
             spare_ready: 0,
             answer_sleep_ms: 0,
+            contract_panics: CONTRACT_PANICS.with(|c| c.get()),
         }
     }
 
@@ -325,6 +337,9 @@ impl tower::Service<GetSigningKeyRequest> for Prov {
         if !was_ready && self.spare_ready > 0 {
             self.spare_ready -= 1;
             was_ready = true;
+        }
+        if !was_ready && self.contract_panics {
+            panic!("key provider: call() before poll_ready() returned Ready(Ok) (tower Service contract)");
         }
         let result: Result<GetSigningKeyResponse, BoxError> = if !was_ready {
             Err("key provider: call() without a preceding poll_ready() that returned Ready(Ok) — no connection checked out".into())
